@@ -92,6 +92,34 @@ def fixtures(limit_bytes=1500):
     return out
 
 
+def far_programs(n):
+    B = "nil;" * n
+    L = "[" + ",".join("7" for _ in range(n)) + "]"
+    return [
+        ("far_if", "let x = 1; if x == 2 { " + B + " x = 7; } print(x);", "1\n"),
+        ("far_else", "let x = 1; if x == 1 { x = 2; } else { " + B + " x = 7; } print(x);", "2\n"),
+        ("far_then", "let x = 1; if x == 1 { x = 2; " + B + " x = 3; } else { x = 7; } print(x);", "3\n"),
+        ("far_while", "let x = 0; while x < 1 { x = x + 1; " + B + " } print(x);", "1\n"),
+        ("far_for", "let x = 0; for i in 1.times() { x = x + 1; " + B + " } print(x);", "1\n"),
+        ("far_break", "let x = 0; while true { x = x + 1; if x == 1 { break; } " + B + " x = 7; } print(x);", "1\n"),
+        ("far_continue", "let x = 0; while x < 1 { x = x + 1; if x == 1 { continue; } " + B + " x = 7; } print(x);", "1\n"),
+        ("far_try", "let x = 0; try { " + B + " raise Error('e'); } catch e { x = 1; } print(x);", "1\n"),
+        ("far_try_done", "let x = 0; try { x = 1; } catch e { " + B + " x = 7; } print(x);", "1\n"),
+        ("far_catch_clause", "class A : Error {} let x = 0; try { raise Error('e'); } catch e: A { " + B + " x = 7; } catch e { x = 2; } print(x);", "2\n"),
+        ("far_catch_exit", "class A : Error {} let x = 0; try { raise A('e'); } catch e: A { x = 1; " + B + " } catch e { x = 7; } print(x);", "1\n"),
+        ("far_and", "print(false && " + L + ".len());", "false\n"),
+        ("far_or", "print(true || " + L + ".len());", "true\n"),
+        ("far_ternary", "print(true ? 1 : " + L + ".len());", "1\n"),
+        ("far_ternary_else", "print(false ? " + L + ".len() : 2);", "2\n"),
+        ("far_fn_if", "fn f(x) { if x == 2 { " + B + " x = 7; } return x; } print(f(1));", "1\n"),
+        ("far_fn_try", "fn f() { let x = 0; try { " + B + " raise Error('e'); } catch e { x = 1; } return x; } print(f());", "1\n"),
+    ]
+
+
+# bound:<name> (digits stripped) -> the output the text must produce if the front end accepts it
+FAR_EXPECT = {"bound:" + nm: exp for nm, _src, exp in far_programs(1)}
+
+
 def boundary_family(thorough):
     out = []
     depths = [1, 2, 3, 8, 32, 64, 128, 200, 255, 256] if not thorough else list(range(1, 257))
@@ -146,6 +174,11 @@ def boundary_family(thorough):
         if thorough or n in (65535, 65536):
             out.append(("consts%d" % n, "fn f() { return [" + ",".join(str(i) + ".5" for i in range(n)) + "]; } print(f().len());"))
             out.append(("jump%d" % n, "let x = 1; if x == 2 { " + "x = 1;" * (n // 5) + " } print(x);"))
+    # one program per kind of relative transfer the encoder writes in 16 bits, with a span just below and just above 64 KiB:
+    # whichever way the front end decides, a text it accepts has to run as written (FAR_EXPECT), a span it cannot encode has to be a diagnostic
+    for n in ((32000, 32700, 32760, 32770, 32790, 33000) if thorough else (32700, 32790)):
+        for nm, src, exp in far_programs(n):
+            out.append(("%s%d" % (nm, n), src))
     big = 1 << 20
     out.append(("bigident", "let " + "a" * big + " = 1; print(1);"))
     out.append(("bigstring", "let s = '" + "a" * big + "'; print(s.len());"))
@@ -293,6 +326,10 @@ class C15(Check):
                     return Verdict(False, True, "repl-lost",
                                    "REPL did not survive a line that fails to compile: class=%s out=%r %s" % (rp.get("class"), rp.get("out", "")[-120:], rp.get("panic") or ""))
             return Verdict(True, True, "rejected")
+        want = FAR_EXPECT.get(spec[0].rstrip("0123456789"))
+        if want is not None and (full.get("class") != "ok" or full.get("out") != want):
+            return Verdict(False, True, "accepted-not-runnable", "the text was accepted without a diagnostic but does not run as written: expected out=%r, got class=%s out=%r %s" % (
+                want, full.get("class"), full.get("out", "")[:80], full.get("panic") or ""))
         # accepted by the front end: nothing more to check here (C16 owns runtime crashes)
         return Verdict(True, True, "accepted:" + str(full.get("class")), extra={"accepted": 1, "accepted_runtime_crash": 1 if full.get("class") in ("panic", "signal", "timeout") else 0})
 
